@@ -95,10 +95,15 @@ structure TState where
   matched : Bool
   out : List Nat     -- indices found so far (for rows `rowIdx+1 ..`), ascending
 
-/-- the back-pointer segment of row `i`: `width - (row_offs[i] - i)` cells; segments are laid out one after the other -/
-def segStart (width : Nat) (offs : List Nat) : Nat → Nat
-  | 0 => 0
-  | i + 1 => segStart width offs i + (width + i - offs.getD i 0)
+/-- `row_iter` of `reconstruct_optimal_path`: the rows are split off the end of `matrix_cells[..matrix_len]`, last row
+    first (`split_at(len - (width - relative_off))`); `segBack k` is where the segment of row `N-1-k` starts
+    (`segBack 0 = matrix_len`, the end of the last segment) -/
+def segBack (width : Nat) (offs : List Nat) (matrixLen : Nat) : Nat → Nat
+  | 0 => matrixLen
+  | k + 1 => segBack width offs matrixLen k - (width - (offs.getD (offs.length - 2 - k) 0 - (offs.length - 2 - k)))
+
+/-- start of row `r`'s back-pointer segment (`r ≤ N-2`) -/
+def segOf (width : Nat) (offs : List Nat) (matrixLen : Nat) (r : Nat) : Nat := segBack width offs matrixLen (offs.length - 1 - r)
 
 /-- the loop of `reconstruct_optimal_path` (fuel: it ends when row 0 is matched; every iteration moves one column left) -/
 def traceGo (cells : List MatrixCell) (width : Nat) (offs : List Nat) (start : Nat) : Nat → TState → List Nat
@@ -106,7 +111,7 @@ def traceGo (cells : List MatrixCell) (width : Nat) (offs : List Nat) (start : N
   | fuel + 1, t =>
     let rowOff := offs.getD t.rowIdx 0
     let out := if t.matched then (start + t.col + rowOff) :: t.out else t.out
-    let next := (cells.getD (segStart width offs t.rowIdx + t.col) default).get t.matched
+    let next := (cells.getD (segOf width offs cells.length t.rowIdx + t.col) default).get t.matched
     if t.matched then
       match t.rowIdx with
       | 0 => out
@@ -119,6 +124,22 @@ def maxByScore : List ScoreCell → Nat → Option (Nat × ScoreCell) → Option
   | c :: cs, i, none => maxByScore cs (i + 1) (some (i, c))
   | c :: cs, i, some b => maxByScore cs (i + 1) (if c.score ≥ b.2.score then some (i, c) else some b)
 
+/-- `setup`'s call of `score_row::<FIRST_ROW = true>`, after which `populate_matrix` continues behind the first
+    `current_row.len()` back-pointer cells -/
+def setupRow (cols : List Col) (width : Nat) (nextOff n0 n1 pb : Nat) (cur0 : List ScoreCell) (cells0 : List MatrixCell) : PState :=
+  { rowStep true cols width ⟨cur0, cells0, 0⟩ 0 nextOff 0 n0 n1 pb with off := width }
+
+/-- the end of `fuzzy_match_optimal`: the best cell of the last row, then `reconstruct_optimal_path` -/
+def finish (W N start : Nat) (offs : List Nat) (s : PState) : MRes :=
+  let lastOff := offs.getD (N - 1) 0
+  let relLast := lastOff + 1 - N
+  match maxByScore (s.cur.drop relLast) 0 none with
+  | none => none
+  | some (e, cell) =>
+    let rowOff := offs.getD (N - 2) 0
+    some (cell.score, traceGo (s.cells.take s.off) (W + 1 - N) offs start (W + N + 1)
+      ⟨N - 2, e + (lastOff - rowOff) - 1, (s.cur.getD (e + relLast) default).matched, [start + e + lastOff]⟩)
+
 /-- `fuzzy_match_optimal` after a successful `alloc`, on the window columns; `cur0` / `cells0`: prior content of
     `current_row` / `matrix_cells` -/
 def optimalImpl (cfg : Cfg) (cols : List Col) (n : List Nat) (start : Nat) (cur0 : List ScoreCell) (cells0 : List MatrixCell) : MRes :=
@@ -128,18 +149,9 @@ def optimalImpl (cfg : Cfg) (cols : List Col) (n : List Nat) (start : Nat) (cur0
     if offs.length ≠ n.length then none
     else
       let width := cols.length + 1 - n.length
-      -- setup's call of score_row::<FIRST_ROW = true>
-      let s0 := rowStep true cols width ⟨cur0, cells0, 0⟩ 0 (offs.getD 1 0) 0 n0 n1 (prefix_bonus_init cfg.preferPrefix start)
-      let s0 : PState := { s0 with off := width }      -- `&mut self.matrix_cells[self.current_row.len()..]`
-      let s := populateGo cols width 1 (n1 :: ns) offs.tail s0
-      let lastOff := offs.getD (n.length - 1) 0
-      let relLast := lastOff + 1 - n.length
-      match maxByScore (s.cur.drop relLast) 0 none with
-      | none => none
-      | some (e, cell) =>
-        let rowOff := offs.getD (n.length - 2) 0
-        let t0 : TState := ⟨n.length - 2, e + (lastOff - rowOff) - 1, (s.cur.getD (e + relLast) default).matched, [start + e + lastOff]⟩
-        some (cell.score, traceGo (s.cells.take s.off) width offs start (cols.length + n.length + 1) t0)
+      finish cols.length n.length start offs
+        (populateGo cols width 1 (n1 :: ns) offs.tail
+          (setupRow cols width (offs.getD 1 0) n0 n1 (prefix_bonus_init cfg.preferPrefix start) cur0 cells0))
   | _ => none
 
 end NucleoVerif.OptImpl
